@@ -92,9 +92,9 @@ Definition delta_ok (eaok : amap -> Prop) (okfn : ident -> Prop) (n0 gb kb : N) 
   let L := fun m l => kb <= l /\ l < m in
   Forall (fun nd => g_edges nd = [] /\ amap_plain (g_attrs nd)) (d_nodes d) /\
   (forall j th, nth_error (d_thunks d) j = Some th -> thall okfn D (L (kb + N.of_nat j)) th) /\
-  Forall (lsall eaok okfn D (L (kb + N.of_nat (length (d_thunks d))))) (d_edges d) /\
-  Forall (lsall eaok okfn D (L (kb + N.of_nat (length (d_thunks d))))) (d_attrs d) /\
-  Forall (lsall eaok okfn D (L (kb + N.of_nat (length (d_thunks d))))) (d_prints d).
+  Forall (fun st => is_estmt st /\ lsall eaok okfn D (L (kb + N.of_nat (length (d_thunks d)))) st) (d_edges d) /\
+  Forall (fun st => is_astmt st /\ lsall eaok okfn D (L (kb + N.of_nat (length (d_thunks d)))) st) (d_attrs d) /\
+  Forall (fun st => is_pstmt st /\ lsall eaok okfn D (L (kb + N.of_nat (length (d_thunks d)))) st) (d_prints d).
 
 Definition one_frame (s : lstate) : Prop := length (l_locals s) = 1%nat.
 
@@ -160,7 +160,7 @@ Section Blocks.
     pose proof (keepD_lexec_stanza t fl cfg glob regexes find call fuel st qm (wlocals (varmap_clear (l_locals B2)) B2) p) as Hd2.
     destruct (run st qm fuel (wlocals (varmap_clear (l_locals B1)) B1) p) as [[[u s1'] p']|e|x|]; try exact Hb.
     destruct Hb as ([] & s2' & E2 & HR & Hpa & Hg & Hs & _). specialize (Hd1 _ _ _ eq_refl). specialize (Hd2 _ _ _ E2).
-    destruct HR as ((gs & Eg1 & Eg2 & Hpl) & (ts & Es1 & Es2 & Hac) & _ & (es & Ee1 & Ee2 & He) & (as_ & Ea1 & Ea2 & Ha) & (ps & Ep1 & Ep2 & Hp) &
+    destruct HR as ((gs & Eg1 & Eg2 & Hpl) & (ts & Es1 & Es2 & Hac) & _ & (es & Ee1 & Ee2 & Ke & He) & (as_ & Ea1 & Ea2 & Ka & Ha) & (ps & Ep1 & Ep2 & Kp & Hp) &
                     (pa & Epa1 & Epa2 & _) & Hsc1 & Hsc2 & Hpv1 & Hpv2).
     exists {| d_nodes := gs; d_thunks := ts; d_edges := es; d_attrs := as_; d_prints := ps |}, s2'. split; [exact E2|].
     cbn [wlocals l_params l_locals] in Hpa, Hd1, Hd2.
@@ -174,7 +174,9 @@ Section Blocks.
     - unfold delta_ok. cbn [d_nodes d_thunks d_edges d_attrs d_prints].
       assert (Egn : gn s1' = gn B1 + N.of_nat (length gs)) by (unfold gn; rewrite Eg1, app_length; lia).
       assert (Esn : sn s1' = sn B1 + N.of_nat (length ts)) by (unfold sn; rewrite Es1, app_length; lia).
-      rewrite <- Egn, <- Esn. split; [exact Hpl|]. split; [exact Hac|]. split; [exact He|]. split; [exact Ha|exact Hp].
+      rewrite <- Egn, <- Esn. split; [exact Hpl|]. split; [exact Hac|]. assert (Hzip : forall (K : lstmt -> Prop) (Q : lstmt -> Prop) l, Forall K l -> Forall Q l -> Forall (fun st => K st /\ Q st) l).
+      { intros K Q l H1' H2'. rewrite Forall_forall in *. intros x Hx. split; auto. }
+      split; [apply Hzip; assumption|]. split; apply Hzip; assumption.
   Qed.
 
   Lemma extends_sizes s d s' : extends s d s' ->
